@@ -40,7 +40,11 @@ MANIFEST = {
             'not, carry a probe before, inside and after every block.  Text '
             'and call log must equal those of the reference stack model '
             '(states = stack configurations, transitions = push / pop / '
-            'lookup).',
+            'lookup).  Also: a client tuple naming one object twice; every '
+            'nesting with a raising / returning core; the nestings as body '
+            'of a template that invokes itself again from the innermost '
+            'level (its defaults on top again); all pairs of sibling blocks '
+            'with an outer value whose result changes on every call.',
     'note': 'Trusted: dtmc/refsem.py (model namespace: a list of frames '
             'searched last-first; callables called on name lookup only; '
             'sub-templates rendered on the current stack with their '
